@@ -21,3 +21,15 @@ func VerifC16Queued() int { return len(clientMessageChan) }
 
 // VerifC16SaveState calls saveState on a map owned by the caller.
 func VerifC16SaveState(lastMessages map[string]interface{}) { saveState(lastMessages) }
+
+// VerifC16NewSourceControl builds a SourceControl wired to the updater's channel as RunRPCServer does
+// (no socket, no goroutine, nothing drained), so that a harness can issue status requests such as
+// SendAllStatus through the real RPC method while RunClientUpdater runs.
+func VerifC16NewSourceControl(npre, nsamp int) *SourceControl {
+	sc := NewSourceControl()
+	sc.clientUpdates = clientMessageChan
+	sc.status.Npresamp = npre
+	sc.status.Nsamples = nsamp
+	sc.ActiveSource = sc.triangle
+	return sc
+}
